@@ -9,9 +9,34 @@
    (c) is false of the faithful model (`C28c_refuted*`); `classes h` = (double vote, stale vote counted, ack from
    diverged log, old-term commit, ack below voted term) are the decidable defect classes of a history. *)
 From Coq Require Import NArith List.
-From Agdb Require Import Raft RaftWitness RaftProofs.
+From Agdb Require Import Raft RaftWitness RaftProofs RaftInv.
 Import ListNotations.
 Open Scope N_scope.
+
+(* (a) PROVED for every adversarial event list: the commit index of node i never decreases
+   (`run size (evs ++ evs')` is any continuation of `run size evs`).  The degenerate one-node cluster, which
+   exchanges no messages, is excluded (`size <> 1`). *)
+Theorem C28a_commit_monotone : forall size evs evs' i,
+  size <> 1 -> commit_of (run size evs) i <= commit_of (run size (evs ++ evs')) i.
+Proof. exact commit_monotone. Qed.
+Print Assumptions C28a_commit_monotone.
+
+(* (b) PROVED for every adversarial event list: an entry held at a committed index of node i is still there,
+   unchanged, after any continuation (truncate-on-append never cuts at or below the commit index) *)
+Theorem C28b_committed_stable : forall size evs evs' i idx e,
+  size <> 1 ->
+  idx <= commit_of (run size evs) i ->
+  log_at (logs_of (run size evs) i) idx = Some e ->
+  log_at (logs_of (run size (evs ++ evs')) i) idx = Some e.
+Proof. exact committed_stable. Qed.
+Print Assumptions C28b_committed_stable.
+
+(* non-vacuity: a run in which node 0 has committed two entries *)
+Example C28ab_nonvacuous :
+  let c := run w28_ack_diverged_n w28_ack_diverged in
+  commit_of c 1 = 2 /\ log_at (logs_of c 1) 2 = Some (mkEntry 2 2 22).
+Proof. exact C28ab_example. Qed.
+Print Assumptions C28ab_nonvacuous.
 
 (* (c) refuted: corpus/C28/ack_diverged.txt, 28 events, 3 nodes *)
 Theorem C28c_refuted : ~ (forall size evs, committed_agree (run size evs)).
